@@ -305,7 +305,8 @@ def native_namespace(R=None):
           "fullmatch": lambda pat, s: isinstance(s, str) and _re.fullmatch(pat, s) is not None,
           "fresh": lambda x: True,
           "is_prefix": lambda a, b: list(b[:len(a)]) == list(a),
-          "seq": lambda x: list(x)}
+          "seq": lambda x: list(x),
+          "same_except": lambda d, *ks: True}
     for name, sf in R.specfns.items():
         def mk(sf=sf):
             def f(*args):
